@@ -14,7 +14,7 @@ from wire import to_wire, from_wire, canon, exc_class
 from props.common import scale, depth_of, schema_tags, same
 from props.c01 import gen_cases
 
-THEOREMS = ["c03_accept", "c03_skip", "c03_read_extend", "c03_prefix", "c03_bad_index"]
+THEOREMS = ["c03_accept", "c03_skip", "c03_read_extend", "c03_prefix", "c03_skip_extend", "c03_skip_prefix", "c03_bad_index"]
 TARGETS = ["Properties.TablesCodec", "Properties.C03"]
 
 
